@@ -883,7 +883,7 @@ C18_BODIES = [
   ((Bin('+', x, y), y), (Lit('A', x, y),)),
   ((x, y), (Lit('A', x, z), Eq(y, Bin('-', N(5), z)))),
 ]
-C18_ORDERS = [['col0', 'col1'], ['col0 desc', 'col1'], ['col1 desc', 'col0'], ['col1', 'col0 desc'], ['col0 desc', 'col1 desc']]
+C18_ORDERS = [['col0', 'col1'], ['col0 desc', 'col1'], ['col1 desc', 'col0'], ['col0', 'DESC', 'col1', 'DESC'], ['col1', 'col0 desc'], ['col0 desc', 'col1 desc'], ['col1', 'DESC', 'col0']]
 
 
 def c18_cases(thorough):
